@@ -1,0 +1,30 @@
+//go:build verif
+
+package signature
+
+// This file is only compiled into the verification harness (/verif, build tag `verif`).
+// It exposes a read-only view of the private context registry.
+
+// VerifContextInfo describes one entry of the context registry.
+type VerifContextInfo struct {
+	Context             string
+	ChainSeparation     bool
+	DynamicSuffix       string
+	DynamicSuffixMaxLen int
+}
+
+// VerifRegisteredContexts returns a snapshot of all registered contexts.
+func VerifRegisteredContexts() []VerifContextInfo {
+	var out []VerifContextInfo
+	registeredContexts.Range(func(k, v any) bool {
+		o := v.(*contextOptions)
+		out = append(out, VerifContextInfo{
+			Context:             string(k.(Context)),
+			ChainSeparation:     o.chainSeparation,
+			DynamicSuffix:       o.dynamicSuffix,
+			DynamicSuffixMaxLen: o.dynamicSuffixMaxLen,
+		})
+		return true
+	})
+	return out
+}
